@@ -73,11 +73,11 @@ func expandByKind(kind string, msg, dst []byte, n int) ([]byte, error) {
 }
 
 type h2cVec struct {
-	msg            string
-	u              []string
-	q0x, q0y       string
-	q1x, q1y       string
-	px, py         string
+	msg      string
+	u        []string
+	q0x, q0y string
+	q1x, q1y string
+	px, py   string
 }
 
 // RFC 9380 Appendix J.1.1 (P256_XMD:SHA-256_SSWU_RO_).
